@@ -278,6 +278,9 @@ func sanitizeColumnType(colType string) (string, error) {
 	if !columnTypePattern.MatchString(colType) {
 		return "", fmt.Errorf("invalid column type: %s", colType)
 	}
+	if err := validateColumnTypeShape(colType); err != nil {
+		return "", err
+	}
 
 	// Extract base type (before any parentheses or modifiers)
 	baseType := strings.Fields(upperType)[0]
